@@ -259,7 +259,11 @@ def nonnull_expr(cfg: CFG, v: ast.AST) -> bool:
     `x or make()`, `make() if x is None else x`)"""
     from .model import NON_NONE_CALLS
     if isinstance(v, ast.Call):
+        if isinstance(v.func, ast.Attribute) and v.func.attr in ('create_future', 'create_task', 'run_in_executor', 'submit'):
+            return True
         return cfg.res.path(v.func) in NON_NONE_CALLS
+    if isinstance(v, ast.Subscript) and isinstance(v.ctx, ast.Load) and cfg.res.path(v.value) in cfg.__dict__.get('nonnull_tables', ()):
+        return True      # an element of a mapping that only ever receives non-None values (declared by the rule module)
     if isinstance(v, (ast.Tuple, ast.List, ast.Dict, ast.Set, ast.JoinedStr, ast.Lambda, ast.ListComp, ast.DictComp, ast.SetComp)):
         return True
     if isinstance(v, ast.Constant):
@@ -350,10 +354,8 @@ def _value_token(cfg: CFG, env: Env, node: Node, v: Optional[ast.AST], flags: Se
         return fresh
     if isinstance(v, (ast.List, ast.Dict, ast.Set, ast.ListComp, ast.DictComp, ast.SetComp, ast.GeneratorExp, ast.Lambda, ast.JoinedStr)):
         return ('obj', node.id, None)
-    if isinstance(v, ast.Call):
-        from .model import NON_NONE_CALLS
-        if cfg.res.path(v.func) in NON_NONE_CALLS:
-            return ('obj', node.id, None)
+    if isinstance(v, (ast.Call, ast.Subscript)) and nonnull_expr(cfg, v):
+        return ('obj', node.id, None)
     return fresh
 
 
